@@ -617,8 +617,10 @@ def fp12SqrPck (o : FOps E) (nor : E → E) (c a : Fp12 E) : Fp12 E :=
   let c12 := o.add t5 t6
   ⟨⟨c.c0.c0, c01, c02⟩, ⟨c10, c.c1.c1, c12⟩⟩
 
-/-- fp12_back_cyc (decompression); `isOne` = (fp12_cmp_dig(a, 1) == RLC_EQ) evaluated on the whole input -/
-def fp12BackCyc (o : FOps E) (nor : E → E) (isOne : Bool) (a : Fp12 E) : Fp12 E :=
+/-- fp12_back_cyc AS IT WAS BEFORE THE REPAIR of findings C10-F3 / C10-F8 (kept for the record: Lemmas/Fpx.lean states what
+    this formula computes in the exceptional branch); `isOne` = (fp12_cmp_dig(a, 1) == RLC_EQ) evaluated on the whole input.
+    Not the code of /repo any more. -/
+def fp12BackCycOld (o : FOps E) (nor : E → E) (isOne : Bool) (a : Fp12 E) : Fp12 E :=
   let f := o.isZero a.c1.c0
   let t2 := if f then a.c1.c2 else a.c0.c1
   let t0 := o.mul a.c0.c1 t2
@@ -647,10 +649,9 @@ def fp12BackCyc (o : FOps E) (nor : E → E) (isOne : Bool) (a : Fp12 E) : Fp12 
   let c00 := o.add c00 o.one      -- fp_add_dig(c[0][0][0], c[0][0][0], 1)
   ⟨⟨c00, a.c0.c1, a.c0.c2⟩, ⟨a.c1.c0, c11, a.c1.c2⟩⟩
 
-/-- fp12_back_cyc WITH THE REPAIR PROPOSED FOR FINDINGS C10-F3 AND C10-F8 (findings/C10-3.md, C10-8.md): in the
-    exceptional branch the numerator stays 2·g4·g5, and the identity is recognised by its compressed form. Not the code
-    of /repo; Lemmas/Fpx.lean proves that this version decompresses every element of the cyclotomic subgroup. -/
-def fp12BackCycFixed (o : FOps E) (nor : E → E) (a : Fp12 E) : Fp12 E :=
+/-- fp12_back_cyc (decompression): in the exceptional branch g2 = 0 the numerator stays 2·g4·g5, and the identity is recognised
+    by its compressed form (all four retained coefficients zero). Regenerated from the C text (Gen/Fpx.lean, `rfl`). -/
+def fp12BackCyc (o : FOps E) (nor : E → E) (a : Fp12 E) : Fp12 E :=
   let f := o.isZero a.c1.c0
   let t2 := if f then a.c1.c2 else a.c0.c1
   let t0 := o.mul a.c0.c1 t2
